@@ -22,30 +22,20 @@ Open Scope Z_scope.
 
 Definition with_pool (st : state) (p : pool) : state := mkState (st_now st) (st_next st) (st_table st) p.
 
-(* the manager serves its receivers one by one without the table lock (sync) / holds it throughout (async);
-   the same switch as the Filter/@Dialect check: both are properties of the manager class *)
-Definition c_sync (c : cfg) : bool := c_dialect c.
-
 (* operations that do not need the subscription table's lock *)
 Definition lock_free (o : op) : bool := match o with Advance _ => true | _ => false end.
 Definition inflight (c : cfg) (o : op) : bool := c_sync c || lock_free o.
 
-(* the exchange itself, on the pooled client of netloc n fetched before (SoapClient.post_message_to) *)
-Definition exchange (p : pool) (n : Z) (o : outcome) : pool * bool :=
+(* the exchange itself, on the pooled client of netloc n fetched before (post_message_to) *)
+Definition exchange (c : cfg) (p : pool) (n : Z) (o : outcome) : pool * bool :=
   match pfind n p with
   | None => (p, false)
-  | Some (us, dead) =>
-      if dead then (p, false)
-      else match o with
-           | OOk => (p, true)
-           | OHttp => (p, false)
-           | ORefuse | OTimeout => (pset n (us, true) p, false)
-           end
+  | Some (us, d) => let '(d', ok) := exchange_state (c_sync c) d o in (set_state p n d', ok)
   end.
 
 (* the exchange ends: pool (connection error) and notify_errors of the entry as it is NOW *)
-Definition finish_send (st : state) (k n : Z) (o : outcome) : state :=
-  let '(p3, ok) := exchange (st_pool st) n o in
+Definition finish_send (c : cfg) (st : state) (k n : Z) (o : outcome) : state :=
+  let '(p3, ok) := exchange c (st_pool st) n o in
   let t3 := match tfind k (st_table st) with
             | Some s' => tset (set_errors s' (if ok then 0 else s_errors s' + 1)) (st_table st)
             | None => st_table st
@@ -85,7 +75,7 @@ Fixpoint fan (c : cfg) (a : string) (outs : list outcome) (recv : list Z) (inter
             let ops := hd [] inter in
             let st1 := with_pool st (fst (pool_get (st_pool st) n k)) in
             let '(st2, obs, orphan) := run_watch c n st1 (filter (inflight c) ops) in
-            let st3 := if orphan then st2 else finish_send st2 k n (outcome_at outs n) in
+            let st3 := if orphan then st2 else finish_send c st2 k n (outcome_at outs n) in
             let '(st4, vs, d) := fan c a outs r (tl inter) st3
                                      (deferred ++ filter (fun o => negb (inflight c o)) ops) in
             (st4, mkVisit k st (Some (Notify k a n, obs)) :: vs, d)
